@@ -30,15 +30,18 @@ from ..core import Ctx, load_corpus
 
 ID = "C19"
 LEVEL = "proof"
-STRENGTH = "partial"   # several clauses hold only under named guards (open findings F3, F5, F6, F7, F8), see LEVEL_TEXT
+STRENGTH = "partial"   # several clauses hold only under named guards (open findings F3, F5, F6, F7, F8, F9, F10), see LEVEL_TEXT
 ENGINES = ["lean-model", "kopfsim", "pyextract"]
 TIE = ("S: real infinite_watch vs the Lean world machine, act by act, on seeded fault scripts; D: what the real namespace observer "
        "was fed (listing, listed items, events) and insights.namespaces after each item vs the Lean `evView`; A': the real orchestrator's "
        "label trace (revise/acquire/termDone/spawnAll/die, from hooks on insights.revised.notify_all, terminate_redundancies, adjust_tasks, "
        "task done-callbacks) replayed by the Lean LTS: every label enabled, same keys after each pass; "
        "A: real adjust_tasks vs the Lean ensemble on insight histories; T: AST check that orchestrator() awaits adjust_tasks "
-       "inside `async with insights.revised` (re-proved equal to the model's locked variant); whole-operator runs, incl. "
-       "rapid namespace/CRD changes during a suspended pass, checked by the oracle")
+       "inside `async with insights.revised` (re-proved equal to the model's locked variant) and that the operator's pause toggles are "
+       "handed over orchestrator → Ensemble → queueing.watcher → infinite_watch (Tie.pause_wired); D': every item fed to the real "
+       "revise_namespaces path (with its Terminating reading: live / blocked / finishing) vs the Lean `reviseNs`; whole-operator runs, incl. "
+       "rapid namespace/CRD changes during a suspended pass, the operator paused and resumed, Terminating namespaces, other handler kinds, "
+       "verbs, restricted observation, checked by the oracle")
 LEVEL_TEXT = (
     "Lean theorems for ALL adversary scripts (changes, deliveries, bookmarks, EOF/connection/timeouts, in-stream and HTTP 410, "
     "escalated request failures and re-sent attempts, unknown ERROR, garbage, compaction, pause/notice/resume/unblock timing) over a "
@@ -52,7 +55,11 @@ LEVEL_TEXT = (
     "(open C19-F5). Cluster→insights (namespaces; observation.py, modelled as a consumer of the same watch machine that ignores "
     "listed items): PARTIAL insights_follow_cluster_partial (guard AllDelivered: every change since the observer's own listing went "
     "through the stream as an event; listed_namespace_ignored_witness = open C19-F8); the out-of-order application of events of two "
-    "incarnations of one namespace (open C19-F7) and the CRD half of the insights are covered by the oracle only. For ALL histories of insight revisions and watcher deaths: adjust_keys, watchers_nodup, kept_tasks_kept, "
+    "incarnations of one namespace (open C19-F7) and the CRD half of the insights are covered by the oracle only. revise_namespaces with Terminating "
+    "namespaces (deletionTimestamp + status.conditions), for ALL item sequences: terminating_namespace_stays_served (a served namespace stays served "
+    "while every item about it says it exists), namespace_gone_unserved; the full 'every existing matching namespace is served' is false: "
+    "terminating_at_first_sight_unserved_witness = open C19-F9. The operator's pause reaches every resource watch-stream: wired_stream_is_the_stream "
+    "(+ Tie.pause_wired: the three hand-overs of operator_paused, read off the AST), unwired_stream_lists_while_paused_witness. For ALL histories of insight revisions and watcher deaths: adjust_keys, watchers_nodup, kept_tasks_kept, "
     "served_pairs_have_live_watcher; PARTIAL: exactly_one_watch_partial (guards: fixed mode — cluster-wide incl. the empty start-up "
     "revisions, or namespaced —, stable scope, and in namespaced mode a namespace served or no cluster-scoped resource; "
     "exactly_one_watch_lingering_witness = open C19-F3). For ALL interleavings of observer revisions, task deaths and orchestrator "
@@ -68,24 +75,31 @@ THEOREMS = [("Kopf.Props.C19", "Kopf.C19." + n) for n in [
     "fresh_list_on_resume", "quiescence_reachable",
     # cluster → insights (namespaces)
     "insights_follow_cluster_partial", "listed_namespace_ignored_witness",
+    # revise_namespaces: Terminating namespaces
+    "terminating_namespace_stays_served", "namespace_gone_unserved", "terminating_at_first_sight_unserved_witness",
+    # the operator's pause reaches every resource watch-stream
+    "wired_stream_is_the_stream", "unwired_stream_lists_while_paused_witness",
     # adjust_tasks over histories of revisions and task deaths
     "adjust_keys", "watchers_nodup", "kept_tasks_kept", "served_pairs_have_live_watcher",
     "exactly_one_watch_partial", "exactly_one_watch_lingering_witness",
     # the orchestrator around insights.revised, all interleavings
     "pass_progress", "no_lost_wakeup", "exactly_one_watch_async_partial", "served_pairs_live_async_partial",
     "death_while_idle_witness", "unlocked_pass_loses_wakeup_witness"]]
-TIE_THEOREMS = [("Kopf.Tie.C19", "Kopf.C19.Tie.pass_under_lock")]
+TIE_THEOREMS = [("Kopf.Tie.C19", "Kopf.C19.Tie.pass_under_lock"), ("Kopf.Tie.C19", "Kopf.C19.Tie.pause_wired")]
 RULE = ("stream scripts: first resourceVersion just below 10/100/1000 in 35 % of the scripts (the versions change their digit count "
         "after a few events), 0-2 pre-existing objects, cluster-wide or namespaced watch, 3-10 moments at dyadic times, each a "
         "cluster of 1-3 ops in random order from {create/edit/delete/other-resource write, break eof/conn/410/error/garbage, "
         "bookmark, unknown-type line, compact, HTTP-410 mode, request fault (429+Retry-After/500/403/404/conn/timeout × count; each "
-        "re-sent attempt is a `retry` act of the model) on list or watch}, isolated pause/resume moments, server/client/inactivity timeouts small enough to fire; "
+        "re-sent attempt is a `retry` act of the model) on list or watch, pause/resume}, isolated pause/resume moments, server/client/inactivity timeouts small enough to fire; "
         "histories: 2-7 insight revisions (30 % followed by running watchers exiting on their own) over 3 resources (2 namespaced, 1 cluster-scoped) × 4 namespaces, cluster-wide or "
         "namespaced mode; operator runs: namespace/CRD churn, rapid successions during a suspended pass, object deletions, stream "
         "breaks, and 'meta' runs that break/compact/410 the observers' own namespaces/CRD watch-streams with namespaces/CRDs created or "
         "deleted inside the re-list gap and between the two start-up listings, and 'crdedit' runs that modify a CRD in place (version "
         "added/removed, preferred version flipped, categories/short names changed) under handlers selecting by bare name, category and "
-        "short name; a case is distinct by its abstracted (act, outputs) sequence and non-trivial when a fault, a pause "
+        "short name; 'pause' runs (the whole operator paused and resumed while objects / namespaces / CRDs change, checkpoints inside the pause), 'nsterm' "
+        "runs (namespaces Terminating with mixed conditions, then finished; some Terminating at start-up), 'restricted' runs (403 on the namespace listing or "
+        "watch, scanning disabled; exact names among the patterns), 'kinds' runs (daemons, timers, indices, create/update/delete/resume handlers, alone or "
+        "beside on.event; verbs without patch / watch / list); namespace patterns drawn from 10 sets (globs, lists, negations, re-inclusion); a case is distinct by its abstracted (act, outputs) sequence and non-trivial when a fault, a pause "
         "or a removal occurs")
 TRUSTED = ["harness/sim fake API (list/watch/replay/410 semantics, fault injection) and virtual-time loop",
            "harness/props/sim_c19.py observation points (api.request wrapper, watching.asyncio proxy, FakeContent.iter_chunked wrapper, ToggleSet subclass)",
@@ -98,13 +112,22 @@ ASSUMPTIONS = ["resource versions are modelled as naturals (Kubernetes: opaque s
                "how many there are and after which delays is C12's subject",
                "between the pause toggle and the moment the pause-waiter task has run (`notice`) requests may still go out (no virtual duration)",
                "a resource keeps its scope (namespaced/cluster) over a history; operator mode (cluster-wide vs namespaced) is fixed per run",
-               "peering absent (standalone or peering CRD not in the backbone): hence no whole-operator run ever pauses; the pause is exercised on "
-               "infinite_watch directly (tie S); the meta-watchers (namespaces/CRDs) run with operator_paused=None and do list and watch while paused, by design",
-               "\"served\" means \"in Insights\"; the cluster→insights map is modelled for namespaces only (Model/C19_Insights: listed items ignored, events "
-               "applied) and tied by the observer-feed comparison; pattern matching, the CRD/resource half (revise_resources, API-group re-scans, "
-               "ambiguity/verbs filters) and the cross-uid ordering of namespace events (C19-F7) are unmodelled: oracle only",
+               "peering absent (standalone or peering CRD not in the backbone): the whole operator is paused through an extra toggle in its own "
+               "operator_paused ToggleSet (captured at orchestrator(); the documented 'pause button'), not through peering (C13's subject); the pause of one "
+               "stream at every position is exercised on infinite_watch directly (tie S); the meta-watchers (namespaces/CRDs) run with operator_paused=None "
+               "and do list and watch while paused, by design",
+               "the cluster→insights map is modelled for namespaces only (Model/C19_Insights: listed items ignored, events applied; reviseNs: the "
+               "Terminating reading of a body) and tied by the observer-feed comparisons; namespace pattern matching (globs, comma lists, negations, "
+               "re-inclusion; an independent matcher in the oracle), the CRD/resource half (revise_resources, API-group re-scans, ambiguity filter, verbs "
+               "per handler kind: daemons/timers/changing handlers need `patch`, on.event/index do not), the restricted modes (HTTP 403 on the namespace "
+               "listing / watch, settings.scanning.disabled) and the cross-uid ordering of namespace events (C19-F7) are unmodelled: oracle only",
+               "a Terminating namespace follows the Kubernetes namespace controller: deletionTimestamp + five conditions (content / finalizers remaining = "
+               "True while blocked), all False before the object is removed; a DELETED event whose last body still carries a True condition (the code "
+               "would keep serving that namespace: `deleted and blockers`) is outside this contract and not generated",
+               "HTTP chunk framing: the fake sends exactly one complete JSON line per chunk (api.iter_jsonlines' re-assembly of split / merged lines is "
+               "exercised by kopf's own tests/apis/test_iterjsonlines.py only)",
                "an ERROR event without `code` raises KeyError (not WatchingError), HTTP 410 on a LIST is swallowed like an escalated 429: both generated and "
-               "tied; an event without metadata.resourceVersion keeps the old `since` in the code: not generated",
+               "tied; unknown in-stream ERROR events carry the codes 400/401/403/404/409/411/429/500/502/503/504/0 (corpus/C19/error_codes.json: one script each); an event without metadata.resourceVersion keeps the old `since` in the code: not generated",
                "orchestrator LTS: the orchestrator reaches its first wait() before the first revision (observers need API round-trips first); "
                "a pass is atomic w.r.t. the ensemble because aiotasks.stop() has no timeout; a watcher ending with a non-404 error cancels the "
                "orchestrator and stops the operator (kopf 9ef1bcb) — that edge is C20's subject and not in the C19 models",
@@ -140,10 +163,33 @@ def extract(ctx: Ctx) -> None:
     if passes[0].lineno <= waits[0].lineno:
         raise ExtractError("orchestrator(): `adjust_tasks` does not follow `insights.revised.wait()`")
     locked = inside(passes[0])
+
+    # the hand-overs of the operator's pause toggles on their way to a watch-stream (Model/C19_Wiring.lean)
+    def handed_over(scope: ast.AST, callee: str, kw: str, value: str, where: str) -> bool:
+        calls = [n for n in ast.walk(scope) if isinstance(n, ast.Call) and pyextract.norm(n.func) == callee]
+        if len(calls) != 1:
+            raise ExtractError(f"{where}: expected exactly one call of `{callee}(...)`, found {len(calls)}")
+        if any(k.arg is None for k in calls[0].keywords):
+            raise ExtractError(f"{where}: `{callee}(**…)`: the keyword arguments cannot be read off the AST")
+        return any(k.arg == kw and pyextract.norm(k.value) == value for k in calls[0].keywords)
+
+    spawn = pyextract.find_def(tree, "spawn_missing_watchers")
+    qtree = pyextract.parse_file(ctx.repo / "kopf/_core/reactor/queueing.py")
+    qwatcher = pyextract.find_def(qtree, "watcher")
+    w1 = handed_over(fn, "Ensemble", "operator_paused", "operator_paused", "orchestrator()")
+    w2 = handed_over(spawn, "queueing.watcher", "operator_paused", "ensemble.operator_paused", "spawn_missing_watchers()")
+    w3 = handed_over(qwatcher, "watching.infinite_watch", "operator_paused", "operator_paused", "queueing.watcher()")
+    b = lambda x: "true" if x else "false"  # noqa: E731
     out = pyextract.HEADER.format(src="kopf/_core/reactor/orchestration.py")
     out += "namespace Kopf.C19.Extracted\n\n"
     out += "/-- `await adjust_tasks(...)` sits inside the `async with insights.revised` block of `orchestrator()` -/\n"
-    out += f"def lockedPass : Bool := {'true' if locked else 'false'}\n\nend Kopf.C19.Extracted\n"
+    out += f"def lockedPass : Bool := {b(locked)}\n\n"
+    out += "/-- `orchestrator()` builds its `Ensemble(operator_paused=operator_paused)` -/\n"
+    out += f"def ensembleGetsToggles : Bool := {b(w1)}\n\n"
+    out += "/-- `spawn_missing_watchers()` calls `queueing.watcher(operator_paused=ensemble.operator_paused)` -/\n"
+    out += f"def watcherGetsToggles : Bool := {b(w2)}\n\n"
+    out += "/-- `queueing.watcher()` calls `watching.infinite_watch(operator_paused=operator_paused)` (kopf/_core/reactor/queueing.py) -/\n"
+    out += f"def streamGetsToggles : Bool := {b(w3)}\n\nend Kopf.C19.Extracted\n"
     leanio.write_generated("Kopf/Extracted/C19.lean", out)
 
 
@@ -162,11 +208,18 @@ F7_SIG = {"site": "observation.process_discovered_namespace_event",
           "shape": "namespace deleted and re-created under the same name: the events of the two incarnations (per-uid workers) are applied out of order, the existing namespace ends up unserved"}
 F8_SIG = {"site": "observation.process_discovered_namespace_event/process_discovered_resource_event",
           "shape": "namespace or CRD created/deleted while the meta-watch is down (re-list gap, start-up double listing): the listed items are ignored, the change never reaches the insights"}
+F9_SIG = {"site": "observation.revise_namespaces",
+          "shape": "namespace already Terminating with blockers when first seen (start-up listing / ADDED): never added to the insights, its content is never served"}
+F10_SIG = {"site": "observation._disable_unsuitable_resources",
+           "shape": "read-only resource served by on.event/index handlers only is dropped because ANOTHER non-patchable resource has a patching handler"}
 F4_SIG = {"site": "orchestration.spawn_missing_watchers",
           "shape": "dead watcher task (ended with an exception) keeps its key: the served pair is never watched again"}
 
 # first versions just below a power of ten (two namespaces exist from the start: 6 → the first objects get 9, 10, 11, …)
 RV_STARTS = [5, 6, 7, 94, 95, 96, 97, 994, 996, 997]
+
+# codes of unknown in-stream ERROR events (everything but 410): each must raise out of the stream
+ERROR_CODES = [400, 401, 403, 404, 409, 411, 429, 500, 500, 502, 503, 504, 0]
 
 CLIENT_ACTS = {"wake", "notice", "unblock", "respond", "failReq", "retry", "deliver", "bookmark", "drop", "err410",
                "errUnknown", "unknownType", "garbage"}
@@ -220,13 +273,21 @@ def gen_script(rng: random.Random, seed: int) -> dict:
         cluster_ops: list[list] = []
         for _k in range(rng.choice([1, 1, 2, 2, 3])):
             q = rng.random()
-            if q < 0.40:
+            if q < 0.03:
+                # a pause / resume in the SAME instant as changes, breaks, faults (before or after them)
+                cluster_ops.append(["resume" if paused else "pause"])
+                paused = not paused
+            elif q < 0.40:
                 cluster_ops.append(change_op())
             elif q < 0.62:
                 how = rng.choice(["eof", "eof", "conn", "conn", "410"])
                 if killers and rng.random() < 0.3:
-                    how = rng.choice(["error", "garbage", "error_nocode"])
-                cluster_ops.append(["break", how])
+                    how = rng.choice(["error", "error", "garbage", "error_nocode"])
+                if how == "error":
+                    # an unknown ERROR: any code but 410, incl. the "try again later" ones (429/503/504), codes next to 410, 0
+                    cluster_ops.append(["break", how, rng.choice(ERROR_CODES)])
+                else:
+                    cluster_ops.append(["break", how])
             elif q < 0.70:
                 cluster_ops.append(["bookmark"])
             elif q < 0.74:
@@ -474,7 +535,8 @@ def oracle_stream(sc: dict, r: dict) -> list[tuple[str, dict]]:
         elif k == "act" and rec[1] == "resume":
             if pauses and pauses[-1][1] is None:
                 pauses[-1][1] = tnow
-                await_list_after_resume = True
+                # a pause of no duration (toggled on and off in one instant, before any waiter ran) was never a pause
+                await_list_after_resume = tnow > pauses[-1][0]
         elif k == "req":
             kind, since, t = rec[1], rec[2], rec[3]
             logical.append((kind, since, t))
@@ -756,7 +818,7 @@ def gen_operator(rng: random.Random, seed: int) -> dict:
                        rng.choice(["team-a", "team-b", "other"]), rng.choice(["x", "y"])])
         t += 2.0
         tl.append([t, "check"])
-    sc = {"seed": seed, "clusterwide": clusterwide, "patterns": ["team-*"], "handlers": handlers,
+    sc = {"seed": seed, "clusterwide": clusterwide, "patterns": rng.choice(PATTERN_SETS), "handlers": handlers,
           "initial_resources": init_res, "initial_namespaces": init_ns, "timeline": tl, "end": t + 3.0}
     if rng.random() < 0.4:
         sc["rv0"] = rng.choice([0, 1, 2, 88, 90, 92, 985, 990])   # namespaces + CRDs + objects cross 10 / 100 / 1000
@@ -871,6 +933,152 @@ def gen_crdedit(rng: random.Random, seed: int) -> dict:
             "timeline": tl, "end": t + 6.0}
 
 
+# namespace pattern sets (kopf's syntax: globs, comma-lists, negations; several patterns = any of them)
+PATTERN_SETS = [["team-*"], ["team-*"], ["team-a", "team-b"], ["team-*", "other"], ["team-*,!team-b"], ["!other,!default,!ns"],
+                ["team-?", "oth*"], ["*-a, *-c", "other"], ["team-*, !team-*, team-b"], ["team-a", "team-*,!team-a"]]
+
+
+def gen_pauseop(rng: random.Random, seed: int) -> dict:
+    """The WHOLE operator gets paused and resumed (an extra toggle in its `operator_paused` set: the documented 'UI with a
+    pause button'; peering does the same): objects, namespaces and CRDs change during the pause; checkpoints inside the
+    pause (nothing may be open or requested) and after the resume (everything served is watched again, from a fresh
+    listing, and every change made meanwhile reaches the handlers)."""
+    clusterwide = rng.random() < 0.4
+    handlers = ["kopfexamples"] + [p for p in ["widgets", "clusterthings"] if rng.random() < 0.4]
+    init_res = ["kopfexamples"] + [p for p in ["widgets", "clusterthings"] if rng.random() < 0.5]
+    init_ns = ["team-a"] + [n for n in ["team-b", "other"] if rng.random() < 0.5]
+    tl: list[list] = [[1.0, "create", "kopfexamples", "team-a", "x"], [3.0, "check"]]
+    t = 4.0
+    for _ in range(rng.choice([1, 1, 2])):
+        if rng.random() < 0.4:
+            tl.append([t, "edit", "kopfexamples", "team-a", "x"])
+        t += rng.choice([0.0, 1 / 64, 0.25, 1.0])
+        tl.append([t, "pause"])
+        for _k in range(rng.choice([1, 2, 3])):
+            dt = rng.choice([1 / 64, 0.125, 0.5, 1.0, 1.5])
+            q = rng.random()
+            if q < 0.45:
+                tl.append([t + dt, rng.choice(["edit", "create", "create"]), rng.choice(handlers), rng.choice(init_ns), rng.choice(["x", "y"])])
+            elif q < 0.65:
+                tl.append([t + dt, rng.choice(["add_ns", "add_ns", "del_ns"]), rng.choice(["team-b", "team-c", "other"])])
+            elif q < 0.8:
+                tl.append([t + dt, rng.choice(["add_res", "del_res"]), rng.choice(["widgets", "clusterthings"])])
+            elif q < 0.9:
+                tl.append([t + dt, "compact", "kopfexamples"])
+            else:
+                tl.append([t + dt, "edit", "kopfexamples", "team-a", "x"])
+        tl.append([t + 2.0, "check"])
+        t += rng.choice([2.5, 3.0, 5.0])
+        tl.append([t, "resume"])
+        if rng.random() < 0.5:
+            tl.append([t + rng.choice([1 / 64, 0.5]), "edit", "kopfexamples", "team-a", "x"])
+        t += 4.0
+        tl.append([t, "check"])
+        t += 1.0
+    return {"seed": seed, "pauseop": True, "clusterwide": clusterwide, "patterns": rng.choice(PATTERN_SETS[:4]), "handlers": handlers,
+            "initial_resources": init_res, "initial_namespaces": init_ns, "timeline": tl, "end": t + 2.0}
+
+
+def gen_nsterm(rng: random.Random, seed: int) -> dict:
+    """Namespaces go the way Kubernetes deletes them: Terminating (deletionTimestamp + conditions, content and finalizers
+    remaining) for a while — the objects in it still change and must still be served —, then finished and removed.
+    Some are Terminating already when the operator starts. Patterns: globs, lists, negations."""
+    patterns = rng.choice(PATTERN_SETS)
+    handlers = ["kopfexamples"] + (["clusterthings"] if rng.random() < 0.3 else [])
+    init_ns = ["team-a"] + [n for n in ["team-b", "team-c", "other"] if rng.random() < 0.5]
+    sc: dict = {"seed": seed, "nsterm": True, "clusterwide": False, "patterns": patterns, "handlers": handlers,
+                "initial_resources": list(handlers), "initial_namespaces": init_ns}
+    tl: list[list] = []
+    if rng.random() < 0.25:
+        sc["initial_terminating"] = [rng.choice(["team-b", "team-c", "team-d"])]
+        tl.append([1.5, "create", "kopfexamples", sc["initial_terminating"][0], "z"])
+    victim = rng.choice(init_ns)
+    tl += [[1.0, "create", "kopfexamples", victim, "x"], [3.0, "check"]]
+    t = 4.0
+    tl.append([t, "term_ns", victim])
+    t += rng.choice([1 / 64, 0.5, 1.0])
+    tl.append([t, "edit", "kopfexamples", victim, "x"])      # e.g. its deletion mark: the operator must still see it
+    if rng.random() < 0.4:
+        tl.append([t + 0.25, rng.choice(["add_ns", "del_ns"]), rng.choice(["team-b", "team-c", "team-d", "other"])])
+    t += 2.0
+    tl.append([t, "check"])
+    if rng.random() < 0.7:
+        t += 1.0
+        tl.append([t, "fin_ns", victim])
+        if rng.random() < 0.4:
+            tl.append([t + rng.choice([1 / 64, 0.5]), "add_ns", victim])     # re-created under the same name
+        t += 3.0
+        tl.append([t, "check"])
+    sc["timeline"] = tl
+    sc["end"] = t + 2.0
+    return sc
+
+
+def gen_restricted(rng: random.Random, seed: int) -> dict:
+    """The restricted modes of observation.py: namespaces cannot be listed (HTTP 403: fall back to the exact names among
+    the patterns), can be listed but not watched (the start-up set stays), or settings.scanning.disabled."""
+    mode = rng.choice(["list", "list", "watch", "disabled"])
+    patterns = rng.choice([["team-a", "team-*"], ["team-a", "team-b"], ["team-a", "team-z", "oth*"], ["team-*"], ["team-b,!x", "team-a"]])
+    handlers = ["kopfexamples"] + (["clusterthings"] if rng.random() < 0.3 else [])
+    init_ns = ["team-a"] + [n for n in ["team-b", "other"] if rng.random() < 0.5]
+    sc: dict = {"seed": seed, "restricted": mode, "clusterwide": False, "patterns": patterns, "handlers": handlers,
+                "initial_resources": list(handlers), "initial_namespaces": init_ns}
+    if mode == "disabled":
+        sc["scanning_disabled"] = True
+    else:
+        sc["ns_forbidden"] = mode
+    tl: list[list] = [[1.0, "create", "kopfexamples", "team-a", "x"], [5.0, "check"]]
+    t = 6.0
+    for _ in range(rng.choice([1, 2])):
+        q = rng.random()
+        if q < 0.5:
+            tl.append([t, rng.choice(["add_ns", "add_ns", "del_ns"]), rng.choice(["team-b", "team-c", "other"])])
+        else:
+            tl.append([t, rng.choice(["create", "edit"]), "kopfexamples", rng.choice(["team-a", "team-b"]), rng.choice(["x", "y"])])
+        t += 1.0
+    t += 3.0
+    tl.append([t, "check"])
+    sc["timeline"] = tl
+    sc["end"] = t + 2.0
+    return sc
+
+
+def gen_kinds(rng: random.Random, seed: int) -> dict:
+    """Resources served by OTHER kinds of handlers (daemons, timers, indices, create/update/delete/resume) — alone or
+    beside on.event —, API groups used by such handlers only, and resources whose verbs lack patch / watch / list."""
+    clusterwide = rng.random() < 0.4
+    universe = ["kopfexamples", "widgets", "clusterthings"]
+    handlers = [p for p in universe if rng.random() < 0.4]
+    extra = []
+    for p in universe:
+        if rng.random() < 0.55:
+            extra.append({"plural": p, "kind": rng.choice(["daemon", "timer", "index", "create", "update", "delete", "resume"])})
+    if not handlers and not extra:
+        extra.append({"plural": "widgets", "kind": rng.choice(["daemon", "timer"])})
+    verbs: dict = {}
+    for p in universe:
+        q = rng.random()
+        if q < 0.25:
+            verbs[p] = ["get", "list", "watch"]                    # read-only: fine for on.event / indices
+        elif q < 0.33:
+            verbs[p] = ["get", "list", "patch"]                    # cannot be watched
+        elif q < 0.38:
+            verbs[p] = ["get", "watch", "patch", "create"]         # cannot be listed
+    init_res = [p for p in universe if rng.random() < 0.7]
+    tl: list[list] = [[1.0, "create", rng.choice(universe), "team-a", "x"], [3.0, "check"]]
+    t = 4.0
+    for _ in range(rng.choice([1, 2, 3])):
+        tl.append([t, rng.choice(["add_res", "add_res", "del_res"]), rng.choice(universe)])
+        if rng.random() < 0.5:
+            tl.append([t + 0.5, "create", rng.choice(universe), rng.choice(["team-a", "team-b"]), rng.choice(["x", "y"])])
+        t += 3.0
+        tl.append([t, "check"])
+        t += 1.0
+    return {"seed": seed, "kinds": True, "clusterwide": clusterwide, "patterns": rng.choice(PATTERN_SETS[:5]), "handlers": handlers,
+            "extra_handlers": extra, "verbs": verbs, "initial_resources": init_res, "initial_namespaces": ["team-a", "team-b"],
+            "timeline": tl, "end": t + 2.0}
+
+
 SCOPE = {"kopfexamples": True, "widgets": True, "clusterthings": False}
 META_PLURALS = ("namespaces", "customresourcedefinitions")
 
@@ -886,6 +1094,11 @@ def served_from_discovery(sc: dict, discovery: list[dict]) -> list[tuple]:
     matches several resources is ambiguous and those resources are not served at all (core-group resources win first);
     a resource that cannot be listed and watched is not served."""
     sels: list[dict] = [{"group": GVP[p][0], "version": GVP[p][1], "name": p} for p in sc["handlers"]]
+    # daemons, timers, indices and changing handlers serve a resource like on.event does; those that keep a state
+    # on the object (all but on.event and indices) need the `patch` verb on it
+    for eh in sc.get("extra_handlers", []):
+        sels.append({"group": GVP[eh["plural"]][0], "version": GVP[eh["plural"]][1], "name": eh["plural"],
+                     "patching": eh["kind"] not in ("index",)})
     for spec in sc.get("selectors", []):
         sels.append({"group": None, "version": None,
                      "name": spec["value"] if spec["by"] == "name" else None,
@@ -924,7 +1137,77 @@ def served_from_discovery(sc: dict, discovery: list[dict]) -> list[tuple]:
             if len(picked) > 1:
                 for r in picked:
                     served.pop(ident(r), None)
-    return sorted(k for k, r in served.items() if "list" in r["verbs"] and "watch" in r["verbs"])
+    need_patch = {ident(r) for sel in sels if sel.get("patching") for r in select(sel)}
+    return sorted(k for k, r in served.items() if "list" in r["verbs"] and "watch" in r["verbs"]
+                  and (k not in need_patch or "patch" in r["verbs"]))
+
+
+def ns_pattern_matches(name: str, pattern: str) -> bool:
+    """kopf's documented namespace pattern syntax (docs/scopes + the docstring of match_namespace), written down
+    independently: comma-separated globs, spaces ignored; `!glob` excludes; a leading exclusion implies a leading `*`;
+    the first glob decides the initial match, later inclusive globs only re-include what a previous exclusion dropped."""
+    import fnmatch
+    globs = [g.strip() for g in pattern.split(",")]
+    if globs and globs[0].startswith("!"):
+        globs = ["*"] + globs
+    if not fnmatch.fnmatchcase(name, globs[0]):
+        return False
+    included = True
+    for g in globs[1:]:
+        if g.startswith("!"):
+            if fnmatch.fnmatchcase(name, g[1:]):
+                included = False
+        elif not included and fnmatch.fnmatchcase(name, g):
+            included = True
+    return included
+
+
+def ns_matches(name: str, patterns: list) -> bool:
+    return any(ns_pattern_matches(name, p) for p in patterns)
+
+
+def exact_names(patterns: list) -> list:
+    """the patterns usable as plain namespace names (the documented fallback when namespaces cannot be observed)"""
+    return sorted({p for p in patterns if not any(ch in p for ch in "!*?,")})
+
+
+def served_namespaces(sc: dict, r: dict, c: dict) -> list:
+    """Which namespaces the operator must serve at checkpoint `c`: cluster-wide → [None]; namespaces cannot be
+    listed (HTTP 403) or scanning is disabled → the exact names among the patterns, whether they exist or not;
+    namespaces can be listed but not watched → those of the start-up listing; otherwise every EXISTING namespace
+    (a Terminating one exists, and its content still needs the operator) that matches a pattern."""
+    if sc.get("clusterwide", True):
+        return [None]
+    if sc.get("scanning_disabled") or sc.get("ns_forbidden") in ("list", "both"):
+        return exact_names(sc["patterns"])
+    if sc.get("ns_forbidden") == "watch":
+        return [n for n in r.get("initial_cluster_namespaces", []) if ns_matches(n, sc["patterns"])]
+    return [n for n in c["namespaces"] if ns_matches(n, sc["patterns"])]
+
+
+def _dropped_for_anothers_patching(sc: dict, c: dict, plural: str) -> bool:
+    """`plural` cannot be patched, no handler that patches selects it (on.event / index only), it can be listed and watched —
+    and some OTHER resource that cannot be patched either is selected by a patching handler (open finding C19-F10)."""
+    if "discovery" not in c:
+        return False
+    verbs = {r["plural"]: r["verbs"] for r in c["discovery"]}
+    patching = {eh["plural"] for eh in sc.get("extra_handlers", []) if eh["kind"] != "index"}
+    if plural not in verbs or "patch" in verbs[plural] or plural in patching:
+        return False
+    return any(p != plural and p in verbs and "patch" not in verbs[p] and "list" in verbs[p] and "watch" in verbs[p] for p in patching)
+
+
+def _f10(sc: dict, r: dict, c: dict, plural: str) -> bool:
+    """C19-F10 now, or earlier in this run with no re-scan of `plural`'s own API group since: the victim is only re-selected
+    by a re-scan of ITS group (a CRD event there); the removal of the other resource re-scans the other's group only."""
+    if _dropped_for_anothers_patching(sc, c, plural):
+        return True
+    for c0 in r["checkpoints"]:
+        if c0["t"] <= c["t"] and _dropped_for_anothers_patching(sc, c0, plural):
+            rescans = [e for e in r.get("crd_events", []) if c0["t"] <= e[0] <= c["t"] and e[1].endswith("." + GVP[plural][0])]
+            if not rescans:
+                return True
+    return False
 
 
 def _meta_gaps(sc: dict) -> dict:
@@ -975,12 +1258,12 @@ def oracle_operator(sc: dict, r: dict) -> list[tuple[str, dict]]:
             break
         served_gvp = served_from_discovery(sc, c["discovery"]) if "discovery" in c else None
         served = sorted({g[2] for g in served_gvp}) if served_gvp is not None else [p for p in sc["handlers"] if p in c["resources"]]
-        if sc.get("clusterwide", True):
-            nss: list = [None]
-        else:
-            nss = [n for n in c["namespaces"] if any(fnmatch.fnmatch(n, p) for p in sc["patterns"])]
+        nss: list = served_namespaces(sc, r, c)
         want = sorted(((p, n if SCOPE[p] else None) for p in served for n in nss), key=str)
         want = sorted(set(want), key=str)
+        if c.get("paused"):
+            want = []           # while paused nothing is watched (the watchers exist, their streams are closed)
+            nss = []
         got = sorted(((w[0], w[1]) for w in c["watches"] if w[0] not in ("namespaces", "customresourcedefinitions")), key=str)
         if got == want and served_gvp is not None:
             # the same clause per API VERSION of a resource: the current discovery decides which version is served
@@ -991,11 +1274,23 @@ def oracle_operator(sc: dict, r: dict) -> list[tuple[str, dict]]:
                 fails.append((f"t={c['t']}: open watches {got_v} != what the current discovery and the selectors serve {want_v}",
                               {"site": "observation.revise_resources",
                                "shape": "watched (group, version, plural, namespace) != served by the current discovery and selectors"}))
-        if got != want:
+        if got != want and c.get("paused"):
+            fails.append((f"t={c['t']}: the operator is paused since t={r['pauses'][-1][0]} but watches are open: {got}",
+                          {"site": "orchestration.spawn_missing_watchers/queueing.watcher", "shape": "watch open while the operator is paused"}))
+        elif got != want:
             extra = [g for g in got if g not in want]
             missing = [w for w in want if w not in got]
             dup = len(set(got)) != len(got)
-            if not missing and not dup and not nss and all((not SCOPE[g[0]]) and g[1] is None and g[0] in served for g in extra):
+            term = set(c.get("terminating", [])) | set(sc.get("initial_terminating", []))
+            init_term = [n for n in sc.get("initial_terminating", []) if n in term]
+            if not extra and not dup and missing and init_term and all(
+                    (SCOPE[m[0]] and m[1] in init_term) or (not SCOPE[m[0]] and all(n in init_term for n in nss)) for m in missing):
+                fails.append((f"t={c['t']}: served pair(s) {missing} have no watch: the namespace was already Terminating (content and "
+                              "finalizers remaining) when the operator started and was never taken into the insights", F9_SIG))
+            elif not extra and not dup and missing and all(_f10(sc, r, c, m[0]) for m in missing):
+                fails.append((f"t={c['t']}: served pair(s) {missing} have no watch: the resource is read-only and served by on.event/index "
+                              "handlers only, but it was dropped together with another non-patchable resource that has a patching handler", F10_SIG))
+            elif not missing and not dup and not nss and all((not SCOPE[g[0]]) and g[1] is None and g[0] in served for g in extra):
                 fails.append((f"t={c['t']}: no namespace is served but the cluster-scoped watch(es) {extra} are still open", F3_SIG))
             elif not dup and (extra or missing) and all(
                     (SCOPE[m[0]] and m[1] is not None and _in_gap(sc, "ns", m[1])) or _in_gap(sc, "res", m[0])
@@ -1019,15 +1314,39 @@ def oracle_operator(sc: dict, r: dict) -> list[tuple[str, dict]]:
             else:
                 fails.append((f"t={c['t']}: open watches {got} != served pairs {want}",
                               {"site": "orchestration.adjust_tasks", "shape": "active watches != served pairs"}))
+    # -- while paused nothing is listed or watched; watching restarts with a fresh listing on resume ----------------
+    pauses = r.get("pauses") or []
+    for q in r.get("obj_requests", []):
+        for p0, p1 in pauses:
+            if q["t"] > p0 and (p1 is None or q["t"] < p1):      # strictly inside: the pause→notice window has no virtual duration
+                fails.append((f"a {q['kind']} request for {q['plural']} (namespace {q['ns']}) was sent at t={q['t']} while the operator "
+                              f"was paused since t={p0}",
+                              {"site": "orchestration.spawn_missing_watchers/queueing.watcher", "shape": "list/watch request sent while the operator is paused"}))
+                break
+        else:
+            continue
+        break
+    for p0, p1 in pauses:
+        if p1 is None:
+            continue
+        first: dict = {}
+        before = {(q["plural"], q["ns"]) for q in r.get("obj_requests", []) if q["t"] <= p0}
+        for q in r.get("obj_requests", []):
+            if q["t"] >= p1 and (q["plural"], q["ns"]) not in first:
+                first[(q["plural"], q["ns"])] = q
+        for pair, q in sorted(first.items(), key=str):
+            if pair in before and q["kind"] != "list":
+                fails.append((f"the first request for {pair} after the resume at t={p1} is a watch since {q['since']}, not a fresh listing",
+                              {"site": "watching.infinite_watch", "shape": "first request after resume is not a list"}))
+                break
     # every object of a served pair: its latest version reached a handler (the operator is still running)
     if r["checkpoints"] and r["checkpoints"][-1]["alive"]:
         last = r["checkpoints"][-1]
         served = sorted({g[2] for g in served_from_discovery(sc, last["discovery"])}) if "discovery" in last else \
             [p for p in sc["handlers"] if p in last["resources"]]
-        if sc.get("clusterwide", True):
-            ok_ns = None
-        else:
-            ok_ns = [n for n in last["namespaces"] if any(fnmatch.fnmatch(n, p) for p in sc["patterns"])]
+        ok_ns = None if sc.get("clusterwide", True) else served_namespaces(sc, r, last)
+        # the object-level clause is observed through on.event handlers: only resources that have one
+        evented = set(sc["handlers"]) | ({g[2] for g in served_from_discovery(sc, last["discovery"])} if sc.get("selectors") and "discovery" in last else set())
         seen = {(c["res"], c["ns"], c["name"]): c["rv"] for c in r["calls"]}
         last_type = {(c["res"], c["ns"], c["name"]): c["type"] for c in r["calls"]}
         present = {(p, n, nm) for p, n, nm, _rv in last["objects"]}
@@ -1037,14 +1356,26 @@ def oracle_operator(sc: dict, r: dict) -> list[tuple[str, dict]]:
             if typ != "DELETED" and (plural, ns, name) not in present and plural in served and pair in open_now:
                 fails.append((f"{plural}/{ns}/{name} was handled, is gone now, and no handler was ever called with DELETED for it", F5_SIG))
                 break
+        served_v = set(served_from_discovery(sc, last["discovery"])) if "discovery" in last else None
+        stored_v = {(p, n, nm): (g, v, p) for g, v, p, n, nm in last.get("objects_gvp", [])}
         for plural, ns, name, rv in last["objects"]:
-            if plural not in served or (SCOPE[plural] and ok_ns is not None and ns not in ok_ns):
+            if last.get("paused"):
+                break           # nothing is delivered while paused; the run ends un-paused in every generated scenario
+            if served_v is not None and (plural, ns, name) in stored_v and stored_v[(plural, ns, name)] not in served_v:
+                continue        # limit of the fake: the object is stored under an API version that is not the served one
+            if plural not in served or plural not in evented or (SCOPE[plural] and ok_ns is not None and ns not in ok_ns):
                 continue
             if not SCOPE[plural] and ok_ns is not None and not ok_ns:
                 continue        # no namespace is served: no (resource, namespace) pair is served at all
             if seen.get((plural, ns, name)) != rv:
                 pair_open = (plural, ns if SCOPE[plural] and ok_ns is not None else None) in open_now
-                if not pair_open and ((SCOPE[plural] and ns is not None and _in_gap(sc, "ns", ns)) or _in_gap(sc, "res", plural)):
+                if not pair_open and SCOPE[plural] and ns in sc.get("initial_terminating", []) and ns in last.get("terminating", []):
+                    fails.append((f"{plural}/{ns}/{name} is at version {rv}, never handled: its namespace was already Terminating when the "
+                                  "operator started and is not served", F9_SIG))
+                elif not pair_open and _f10(sc, r, last, plural):
+                    fails.append((f"{plural}/{ns}/{name} is at version {rv}, never handled: its read-only resource was dropped together with "
+                                  "another non-patchable resource that has a patching handler", F10_SIG))
+                elif not pair_open and ((SCOPE[plural] and ns is not None and _in_gap(sc, "ns", ns)) or _in_gap(sc, "res", plural)):
                     fails.append((f"{plural}/{ns}/{name} is at version {rv}, never handled: its namespace/CRD appeared while the meta-watch "
                                   "was down and is not served", F8_SIG))
                 elif not pair_open and SCOPE[plural] and ns is not None and _recreated(sc, ns):
@@ -1073,24 +1404,39 @@ def eval_operator(sc: dict) -> dict:
         return {"sc": sc, "sim_error": r["sim_error"]}
     fails = oracle_operator(sc, r)
     churn = [o[1] for o in sc["timeline"] if o[1] in ("add_ns", "del_ns", "add_res", "del_res", "add_version", "del_version",
-                                                       "set_preferred", "set_categories", "set_shortnames")]
+                                                       "set_preferred", "set_categories", "set_shortnames",
+                                                       "term_ns", "fin_ns", "pause", "resume")]
     nsreq = nsimpl = None
     feed = r.get("ns_feed") or []
+    nsreq2 = None
     if feed and feed[0]["kind"] == "listing0" and not sc.get("clusterwide", True):
-        import fnmatch
-        ok = lambda n: any(fnmatch.fnmatch(n, p) for p in sc["patterns"])  # noqa: E731
+        ok = lambda n: ns_matches(n, sc["patterns"])  # noqa: E731
         ids: dict[str, int] = {}
         kid = lambda n: ids.setdefault(n, len(ids) + 1)  # noqa: E731
-        base = [kid(n) for n in feed[0]["names"] if ok(n)]
-        evs, impl = [], []
+        marks0 = feed[0].get("marks") or ["live"] * len(feed[0]["names"])
+        base = [kid(n) for n, m in zip(feed[0]["names"], marks0) if ok(n) and m == "live"]
+        base2 = [[kid(n), m] for n, m in zip(feed[0]["names"], marks0) if ok(n)]
+        evs, evs2, impl = [], [], []
         for f in feed[1:]:
             if f["kind"] != "event" or not ok(f["name"]):
                 continue
             evs.append([f["type"], kid(f["name"])])
+            evs2.append([f["type"], kid(f["name"]), f.get("mark", "live")])
             impl.append(sorted(kid(n) for n in f["after"]))
-        nsreq = ["C19.nsfold", base, evs, sorted(ids.values())]
+        all_live = all(m == "live" for _k, m in base2) and all(e[2] == "live" for e in evs2)
+        # the events-only view (`evView`, what insights_follow_cluster_partial is about) knows live namespaces only;
+        # the revise_namespaces model (`reviseNs`: Terminating / blocked / finishing) is tied on every feed
+        nsreq = ["C19.nsfold", base, evs, sorted(ids.values())] if all_live else None
+        nsreq2 = ["C19.nsrevise", base2, evs2, sorted(ids.values())]
         nsimpl = impl
-        if sorted(kid(n) for n in feed[0]["after"]) != sorted(base):
+        # what the property wants after the observer's own listing: every matching namespace that exists — a Terminating
+        # one with content remaining exists (one with nothing remaining is as good as gone)
+        want0 = sorted(kid(n) for n, m in zip(feed[0]["names"], marks0) if ok(n) and m != "finishing")
+        got0 = sorted(kid(n) for n in feed[0]["after"])
+        if got0 != want0 and got0 == sorted(base) and any(m == "blocked" for _k, m in base2):
+            fails.append(("the observer's own listing showed a matching namespace that is Terminating with content/finalizers "
+                          "remaining: it was not taken into the insights", F9_SIG))
+        elif got0 != want0:
             fails.append(("the observer's own listing did not put exactly the matching namespaces into the insights",
                           {"site": "observation.namespace_observer", "shape": "insights after the first listing != matching namespaces"}))
     trace = r.get("orch_trace") or []
@@ -1113,6 +1459,7 @@ def eval_operator(sc: dict) -> dict:
     orchreq = ["C19.orch", [l[:1] if l[0] == "spawnAll" else l for l in trace]] if trace else None
     orchimpl = [l[1] for l in trace if l[0] == "spawnAll"]
     return {"sc": sc, "fails": fails, "churn": churn, "checkpoints": len(r["checkpoints"]), "nsreq": nsreq, "nsimpl": nsimpl,
+            "nsreq2": nsreq2, "pauses": len(r.get("pauses") or []),
             "orchreq": orchreq, "orchimpl": orchimpl,
             "watch_requests": len(r["watch_requests"]), "calls": len(r["calls"]),
             "shape": [[c["watches"], c["resources"], c["namespaces"]] for c in r["checkpoints"]],
@@ -1200,7 +1547,16 @@ def absorb(ctx: Ctx, res: dict, source: str, pending: dict) -> None:
                  sample={"scenario": case, "checkpoints": res["shape"]} if res["churn"] else None)
         for c in res["churn"]:
             ctx.count("operator_churn", c)
-        ctx.count("operator_runs", "rapid" if case.get("rapid") else "meta" if case.get("meta") else "crdedit" if case.get("crdedit") else "churn")
+        ctx.count("operator_runs", "rapid" if case.get("rapid") else "meta" if case.get("meta") else "crdedit" if case.get("crdedit") else
+                  "pause" if case.get("pauseop") else "nsterm" if case.get("nsterm") else "restricted:" + str(case["restricted"]) if case.get("restricted") else
+                  "kinds" if case.get("kinds") else "churn")
+        ctx.count("operator_patterns", json.dumps(case.get("patterns")))
+        for eh in case.get("extra_handlers", []):
+            ctx.count("operator_handler_kinds", eh["kind"])
+        for p, v in (case.get("verbs") or {}).items():
+            ctx.count("operator_verbs", "no-patch" if "patch" not in v else "no-watch" if "watch" not in v else "no-list")
+        if case.get("initial_terminating"):
+            ctx.count("operator_runs", "namespace Terminating at start-up")
         if res.get("orchreq") is not None:
             pending["reqs"].append(res["orchreq"])
             pending["impl"].append({"enabled": True, "keys_after_each_pass": res["orchimpl"]})
@@ -1213,6 +1569,13 @@ def absorb(ctx: Ctx, res: dict, source: str, pending: dict) -> None:
             pending["impl"].append({"after": res["nsimpl"]})
             pending["where"].append({"kind": kind, "case": case})
             ctx.count("insights_tie", "fed items", len(res["nsimpl"]))
+        if res.get("nsreq2") is not None:
+            pending["reqs"].append(res["nsreq2"])
+            pending["impl"].append({"after": res["nsimpl"]})
+            pending["where"].append({"kind": kind, "case": case})
+            ctx.count("insights_tie", "fed items (revise model, with Terminating marks)", len(res["nsimpl"]))
+            for e in res["nsreq2"][2]:
+                ctx.count("insights_marks", e[2])
         ctx.count("operator_runs", "checkpoints", res["checkpoints"])
         ctx.count("operator_runs", "watch_requests", res["watch_requests"])
 
@@ -1237,6 +1600,8 @@ def compare_with_model(ctx: Ctx, pending: dict) -> None:
                         {"enabled": enabled, "keys_after_each_pass": keys}, wh)
         elif req[0] == "C19.nsfold":
             ctx.compare("C19 namespace insights (observer feed → insights.namespaces)", impl, {"after": out[1]}, wh)
+        elif req[0] == "C19.nsrevise":
+            ctx.compare("C19 namespace insights (revise_namespaces with Terminating namespaces)", impl, {"after": out[1]}, wh)
         elif req[0] == "C19.run":
             model = {"outs": [_canon_outs(o) for o in out[1]["outs"]], "failed": out[1]["phase"] == "failed"}
             ctx.compare("C19 watch-stream (acts → requests/yields)", impl, model, wh)
@@ -1281,6 +1646,12 @@ def run(ctx: Ctx) -> None:
         items.append(("operator", gen_meta(rng, base + i)))
         sources.append("generated")
     ctx.count("cases", "operator-meta", n_meta)
+    for tag, gen, n in (("pause", gen_pauseop, ctx.budget(60, 800)), ("nsterm", gen_nsterm, ctx.budget(60, 800)),
+                        ("restricted", gen_restricted, ctx.budget(30, 400)), ("kinds", gen_kinds, ctx.budget(80, 1000))):
+        for i in range(n):
+            items.append(("operator", gen(rng, base + i)))
+            sources.append("generated")
+        ctx.count("cases", "operator-" + tag, n)
     ctx.count("cases", "stream", n_stream)
     ctx.count("cases", "adjust", n_adjust)
     ctx.count("cases", "operator", n_oper)
@@ -1306,7 +1677,10 @@ def search(ctx: Ctx, broken: list) -> None:
         items.append(("stream", gen_script(rng, 7_000_000 + i)))
     for i in range(ctx.budget(2000, 20000)):
         items.append(("adjust", gen_history(rng, 7_000_000 + i)))
-    open_sigs = [F3_SIG, F5_SIG, F6_SIG, F7_SIG, F8_SIG]
+    for gen in (gen_pauseop, gen_nsterm, gen_restricted, gen_kinds, gen_operator):
+        for i in range(ctx.budget(100, 1000)):
+            items.append(("operator", gen(rng, 7_000_000 + i)))
+    open_sigs = [F3_SIG, F5_SIG, F6_SIG, F7_SIG, F8_SIG, F9_SIG, F10_SIG]
     for res in _run_items(items, jobs):
         for what, sig in res.get("fails", []):
             if sig not in open_sigs:
